@@ -15,6 +15,7 @@ CONTRACTS = {
     'C07': 'contracts.c07',
     'C11': 'contracts.c11',
     'C13': 'contracts.c13',
+    'C14': 'contracts.c14',
 }
 
 
